@@ -350,6 +350,23 @@ func genHistory(rng *rand.Rand, w *world, hi, minEpochs, maxEpochs int) history 
 	}
 	p.GenesisEpochProvisions = decRaw(raw)
 
+	if hi%8 == 1 { // a quickly decaying schedule: the provision falls below one coin, nothing is minted any more
+		p.ReductionFactor = osmomath.NewDecWithPrec(5, 1)
+		p.ReductionPeriodInEpochs = int64(1 + rng.Intn(3))
+		if st, per := p.MintingRewardsDistributionStartEpoch, p.ReductionPeriodInEpochs; st <= h.base &&
+			!(h.lastRed > h.base-per && h.lastRed <= h.base) {
+			// the history begins after the start epoch: keep it inside the current (now shorter) reduction period
+			span := per
+			if h.base-st+1 < span {
+				span = h.base - st + 1
+			}
+			h.lastRed = h.base - rng.Int63n(span)
+		}
+		raw = new(big.Int).Add(new(big.Int).Mul(big.NewInt(int64(1+rng.Intn(9))), pow10(18)), randUpTo(rng, pow10(17)))
+		ip = new(big.Int).Quo(raw, pow10(18))
+		p.GenesisEpochProvisions = decRaw(raw)
+	}
+
 	// developer reward receivers
 	p.WeightedDeveloperRewardsReceivers = []minttypes.WeightedAddress{}
 	h.recv = []recvEntry{}
@@ -388,7 +405,7 @@ func genHistory(rng *rand.Rand, w *world, hi, minEpochs, maxEpochs int) history 
 		for i := 0; i < nEntries; i++ {
 			to := 0
 			addr := ""
-			if rng.Intn(100) >= pEmpty {
+			if rng.Intn(100) >= pEmpty && !(hi%7 == 2 && i == 0) { // hi%7 == 2: the first entry has the empty address
 				if h.nrcv > 0 && rng.Intn(8) == 0 { // the same account listed twice
 					to = 1 + rng.Intn(h.nrcv)
 				} else {
@@ -424,7 +441,12 @@ func genHistory(rng *rand.Rand, w *world, hi, minEpochs, maxEpochs int) history 
 			p.GenesisEpochProvisions = decRaw(raw)
 			devPerEpoch = big.NewInt(7)
 		}
-		h.vest = osmomath.NewIntFromBigInt(new(big.Int).Mul(devPerEpoch, big.NewInt(int64(rng.Intn(h.epochs)))))
+		k := rng.Intn(h.epochs)
+		if hi%16 == 5 { // constant provision, dry within the first half: failures are certain
+			p.ReductionFactor = osmomath.OneDec()
+			k = rng.Intn(1 + h.epochs/2)
+		}
+		h.vest = osmomath.NewIntFromBigInt(new(big.Int).Mul(devPerEpoch, big.NewInt(int64(k))))
 	}
 	h.params = p
 	return h
@@ -521,6 +543,7 @@ type genStep struct {
 	Supply  int64      `json:"supply"`
 	Offset  int64      `json:"offset"`
 	Dust    int64      `json:"dust"` // developer rounding remainder the specification sends to the community pool
+	Dev     int64      `json:"dev"`  // developer share of the epoch
 }
 
 type genConf struct {
@@ -567,7 +590,7 @@ func TestReplay(t *testing.T) {
 		t.Fatal(err)
 	}
 	mm := []mismatch{}
-	steps, dustEpochs, reductions, failsSeen := 0, 0, 0, 0
+	steps, dustEpochs, reductions, failsSeen, diverged := 0, 0, 0, 0, 0
 	var dustExample any
 	var w *world
 	for bi, b := range bs {
@@ -612,7 +635,15 @@ func TestReplay(t *testing.T) {
 			steps++
 			oc := w.epochEnd(p.EpochIdentifier, s.N)
 			if oc.OK != (s.Kind != "fail") {
-				bad(si, "outcome", s.Kind, oc)
+				// The remainders the code has kept in the vesting account (the known deviation) can make the real
+				// account cover a developer share the model's account cannot: from here on the behaviour is not the
+				// model's any more.  Anything else is a mismatch.
+				prevVest := b.Steps[si-1].Bal.Vest
+				if s.Kind == "fail" && known > 0 && prevVest < s.Dev && s.Dev <= prevVest+known {
+					diverged++
+				} else {
+					bad(si, "outcome", s.Kind, oc)
+				}
 				break
 			}
 			if s.Kind == "fail" {
@@ -670,7 +701,7 @@ func TestReplay(t *testing.T) {
 		}
 	}
 	res := map[string]any{"behaviours": len(bs), "steps": steps, "mismatches": mm, "dust_epochs": dustEpochs,
-		"reductions": reductions, "fails": failsSeen}
+		"reductions": reductions, "fails": failsSeen, "diverged_after_known": diverged}
 	if dustExample != nil {
 		res["dust_example"] = dustExample
 	}
